@@ -370,15 +370,23 @@ func runInteractive(c *harness.Ctx) harness.Result {
 	if err := p.WriteUncompressed(&buf); err != nil {
 		return harness.Result{Verdict: harness.Inconclusive, Detail: err.Error()}
 	}
-	// a second, argument-free command checks that the arguments did not stick
-	sr, err := sess.Run(sess.Spec{Profile: buf.Bytes(), Mode: "interactive", Lines: []string{line, "proto > all.pb.gz"}, Dir: c.Tmp + "/s"}, 2*time.Minute)
+	// a second, argument-free command checks that the arguments did not stick; half of the sessions
+	// start with a report under a label filter that is switched off again before the command
+	lines := []string{line, "proto > all.pb.gz"}
+	if r.Intn(2) == 0 {
+		pre := [][]string{{"taghide=id", "top", "taghide="}, {"tagshow=nosuch", "traces", "tagshow="}, {"tagfocus=id:7", "top", "tagfocus="}}[r.Intn(3)]
+		lines = append(append([]string{}, pre...), lines...)
+		desc += fmt.Sprintf(" after %q", pre)
+	}
+	sr, err := sess.Run(sess.Spec{Profile: buf.Bytes(), Mode: "interactive", Lines: lines, Dir: c.Tmp + "/s"}, 2*time.Minute)
 	if err != nil {
 		return harness.Result{Verdict: harness.Inconclusive, Detail: "session: " + err.Error()}
 	}
 	c.Stat("interactive_sessions", 1)
-	if len(sr.Segments) < 2 {
+	if len(sr.Segments) < len(lines) {
 		return harness.Result{Verdict: harness.Inconclusive, Detail: fmt.Sprintf("session produced %d segments", len(sr.Segments))}
 	}
+	sr.Segments = sr.Segments[len(lines)-2:]
 	read := func(seg sess.Segment, name string) (*profile.Profile, string) {
 		for fn, body := range seg.Files {
 			if strings.HasSuffix(fn, name) {
@@ -811,7 +819,7 @@ func init() {
 	harness.Register(&harness.Check{
 		ID:    "C06",
 		Level: "exploration",
-		Rule: "part names: profiles over small name/file/binary alphabets with shared and inlined locations, unsymbolized frames and empty stacks, function and location ids distinct but neither dense nor ordered (values just above the table size included); every sample carries a unique id label so outcomes are matched per sample; random focus/ignore/hide/show/show_from expressions (12 patterns: literals, alternation, anchors, classes, path fragments), alone and combined, through the API (FilterSamplesByName + ShowFrom) and through the driver (-proto with the options, relative_percentages on/off; and -traces at functions/files/lines/filefunctions granularity with and without noinlines, where the set of surviving samples is read from their id labels). part interactive: 'proto F.. -I.. > file' typed into a fresh interactive session (1-4 focus words and -ignore words in any order) must filter like focus=F1|F2 ignore=I1|I2, and an argument-free command after it must see every sample again. part partition: focus=R plus ignore=R must contain every sample exactly once and totals must add up (also on -top totals). part tags: string labels and numeric labels in bytes/kb, ms/us, unitless and key-inferred units against regexp lists (AND without key, OR with key) and ranges N, N:, :N, N:M with unit conversion, optionally keyed, plus tagshow/taghide, through the driver. " +
+		Rule: "part names: profiles over small name/file/binary alphabets with shared and inlined locations, unsymbolized frames and empty stacks, function and location ids distinct but neither dense nor ordered (values just above the table size included); every sample carries a unique id label so outcomes are matched per sample; random focus/ignore/hide/show/show_from expressions (12 patterns: literals, alternation, anchors, classes, path fragments), alone and combined, through the API (FilterSamplesByName + ShowFrom) and through the driver (-proto with the options, relative_percentages on/off; and -traces at functions/files/lines/filefunctions granularity with and without noinlines, where the set of surviving samples is read from their id labels). part interactive: 'proto F.. -I.. > file' typed into a fresh interactive session (1-4 focus words and -ignore words in any order) must filter like focus=F1|F2 ignore=I1|I2, and an argument-free command after it must see every sample again; half of the sessions first run a report under a label filter (taghide / tagshow / tagfocus) that is switched off again. part partition: focus=R plus ignore=R must contain every sample exactly once and totals must add up (also on -top totals). part tags: string labels and numeric labels in bytes/kb, ms/us, unitless and key-inferred units against regexp lists (AND without key, OR with key) and ranges N, N:, :N, N:M with unit conversion, optionally keyed, plus tagshow/taghide, through the driver. " +
 			"oracle: reference filter written from doc/README.md over the frames view; values, labels and frame order must be retained. non-trivial = at least one decided sample / a tag filter present; distinct = (filters, sample counts)",
 		Assumptions: []string{"undecided by the statement and accepted either way: empty-stack samples under hide/show, unsymbolized frames under show", "numeric label units are consistent per key within a profile", "a unitless range compares raw values of labels without a known unit"},
 		Parts: []harness.Part{
